@@ -114,8 +114,20 @@ PROPS["C16"] = dict(WIT,
 ENGINES.append({"name": "wit", "path": "overlay/verifsim/wit", "serves_properties": ["C14", "C15", "C16"],
     "kind_free_text": "real witness/mirror handlers over simulated lock and object stores; adversarial request generator over forked ground-truth logs"})
 
+PROPS["C12"] = {
+    "engine": "client", "quick_budget": 45, "thorough_budget": 600,
+    "level_note": "Trusted: the reference model that renders the ground-truth log (tiles, data tiles, checkpoints signed through sunlight's own signer), ct-go's TLS marshalling of SCTs, Go's net/http. Real: sunlight.Client (HTTP mode) with torchwood's fetcher, retries, Retry-After handling, timeouts and concurrency limit on the fake clock, over a real http.Transport on in-memory connections (transparent gzip decoding, short bodies, dropped connections). The tree head handed to the client is authentic; file:// modes and the permanent cache are not exercised.",
+    "level_text": "The real client's Entries, AllEntries, Entry, CheckInclusion and Checkpoint run against an in-process log whose every response is decided by the scheduler: bit flips, truncation, trailing bytes, another tile of the same log (other index, other level, narrower or wider partial), the same tile of a forked log signed by the same key, gzip damage, short bodies, 404/429/503 with Retry-After, stalls past the timeout, dropped connections, reordered concurrent responses; older-but-valid, foreign-key and corrupted checkpoints; SCTs that are valid or wrong in log id, timestamp, index, signature, extension encoding, or issued for the forked leaf. Oracle: every yielded/returned entry has exactly the Merkle-covered fields of the ground-truth leaf at that index, an SCT is confirmed only if valid, a checkpoint is returned only if a served body signed by the configured key states it; without faults the whole log is yielded.",
+    "expect_probes": ["complete.allentries", "complete.entries", "inclusion.confirmed", "checkpoint.ok", "fault.fork", "fault.subst", "fault.gzflip", "fault.429", "fault.stall", "concurrent.requests"],
+    "real": ["sunlight.Client (client.go), tile.go codec, checkpoint.go verifier", "torchwood client and tile fetcher (retries, backoff, timeouts, concurrency limit)", "net/http client transport over in-memory connections"],
+    "stubbed": ["the log server: in-process handler rendering objects from the reference model, responses decided by the scheduler", "network: net.Pipe", "clock and timers: testing/synctest"],
+    "assumptions": ["the tree head given to the client is authentic (the property's premise)", "sampling: a clean batch is evidence, not proof"],
+}
+ENGINES.append({"name": "client", "path": "overlay/verifsim/client", "serves_properties": ["C12"],
+    "kind_free_text": "real sunlight.Client against a scheduler-controlled adversarial Static CT server on the fake clock"})
+
 NOT_APPLICABLE = {
     "C10": "pure function of its input (codec bijections): no schedule, clock, fault, I/O or second party for a simulator to control; deciding it is input generation (property-based testing), which is outside this technique. See DESIGN.md §6.",
 }
-for _p in ["C09", "C12", "C18", "C19", "C20"]:
+for _p in ["C09", "C18", "C19", "C20"]:
     NOT_APPLICABLE[_p] = "not claimed yet: the simulator for this property is still being built (see DESIGN.md §5 for the plan)"
